@@ -53,9 +53,9 @@ func NewStats(prop, tier string, seed uint64) *Stats {
 	s.Panics = s.panics
 	return s
 }
-func (s *Stats) op(name string)               { s.Ops[name]++ }
-func (s *Stats) pair(fn string, a, b Kind)    { s.Pairs[fn+":"+a.String()+">"+b.String()]++ }
-func (s *Stats) branch(name string)           { s.Branches[name]++ }
+func (s *Stats) op(name string)                { s.Ops[name]++ }
+func (s *Stats) pair(fn string, a, b Kind)     { s.Pairs[fn+":"+a.String()+">"+b.String()]++ }
+func (s *Stats) branch(name string)            { s.Branches[name]++ }
 func (s *Stats) shape(format string, a ...any) { s.Shapes[fmt.Sprintf(format, a...)]++ }
 func (s *Stats) sample(str string) {
 	if len(s.Samples) < 8 {
